@@ -50,6 +50,25 @@ def check_steps(sc, steps, out=print):
                     m = max(abs(x) for x in sl)
                     if m > TOL * sc_:
                         bad.append("%s: %s: state(x+d)-state(x) differs from coef*d by %.3e (coef %r)" % (tag, nm, m, c))
+    for n, rec in enumerate(steps):
+        rs = rec.get("restart")
+        if not rs:
+            continue
+        algo = sc["steps"][n]["algo"]
+        k = rs["k"]
+        saved = steps[k]["new"]
+        used = ("u", "v") if algo == "parabolic" else ("u", "v", "a")   # the theta scheme carries no acceleration
+        for f in used:
+            m = max(abs(p - q) for p, q in zip(rs["restored"][f], saved[f]))
+            if m > 0:
+                bad.append("step %d %s: restart: after Save_Iter/Set_Iter(%d) the state read back differs from the state saved: max |d%s| = %.3e"
+                           % (n, algo, k, f, m))
+        for f in used:
+            sc_ = O.scale(rec["new"][f])
+            m = max(abs(p - q) for p, q in zip(rs["cont"][f], rec["new"][f]))
+            if m > TOL * sc_:
+                bad.append("step %d %s: restart: continuing from Set_Iter(%d) gives %s differing from the originally computed next iterate by %.3e (scale %.3e)"
+                           % (n, algo, k, f, m, sc_))
     en = sc.get("energy")
     if en:
         K, M = steps[0]["K"], steps[0]["M"]
